@@ -110,25 +110,21 @@ def axioms(ctx, block):
         b["params"] = p if isinstance(p, list) else [p]
         return b
 
-    def report(axiom, p, idx_sets, roles, msg, observed, expected):
-        """idx_sets: list over instances of column indices; roles for quadratic CVaR
-        classification (tensors over the instances)."""
-        n = len(idx_sets)
+    def report(axiom, p, n, idx, roles, msg, observed, expected):
+        """n violated instances; idx(i) -> column indices of instance i; roles: tensors over
+        the instances for the quadratic-CVaR classification.  Vectorised: one stored case per
+        class (the first in enumeration order), all instances counted."""
         if n == 0:
             return
-        if measure == "qcvar":
-            known = _qc_known(p, roles).tolist()
-        else:
-            known = [False] * n
-        first = {}
-        for i in range(n):
-            cls = ("minimiser_below_range:" + axiom) if known[i] else axiom
-            if cls not in first:
-                first[cls] = i
-                ctx.violation(site, cls, msg(i), observed=observed(i), expected=expected(i),
-                              block=mini(idx_sets[i], p))
-            else:
-                ctx.violation(site, cls, "")
+        known = _qc_known(p, roles) if measure == "qcvar" else torch.zeros(n, dtype=torch.bool)
+        for flag, cls in ((True, "minimiser_below_range:" + axiom), (False, axiom)):
+            sel = (known == flag).nonzero().flatten()
+            if len(sel) == 0:
+                continue
+            i = int(sel[0])
+            ctx.violation(site, cls, msg(i), observed=observed(i), expected=expected(i), block=mini(idx(i), p))
+            if len(sel) > 1:
+                ctx.viol_counts[(str(site), str(cls))] += len(sel) - 1
 
     # ---- values on the base samples ---------------------------------------------------
     V, T = {}, {}
@@ -164,7 +160,7 @@ def axioms(ctx, block):
                 ctx.tick(M, nontrivial=int(nonconst.sum()))
                 js = viol.nonzero().flatten()
                 if len(js):
-                    report(name, p, [[int(j)] for j in js], [(x[:, js], v[js], T[p][js])],
+                    report(name, p, len(js), lambda i: [int(js[i])], [(x[:, js], v[js], T[p][js])],
                            lambda i: f"{measure}(param={p}) on {xd[:, js[i]].tolist()} violates {name}"
                            + (f" lowered by 1/(4 lam) = {low}" if low else ""),
                            lambda i: float(v[js[i]]), lambda i: float(bound[js[i]]))
@@ -179,7 +175,7 @@ def axioms(ctx, block):
             ctx.tick(M, nontrivial=int(nonconst.sum()))
             js = viol.nonzero().flatten()
             name = "not_nondecreasing_in_a" if measure == "erm" else "not_nonincreasing_in_p"
-            report(name, [p1, p2], [[int(j)] for j in js], None,
+            report(name, [p1, p2], len(js), lambda i: [int(js[i])], None,
                    lambda i: f"{measure} on {xd[:, js[i]].tolist()}: value at {p1} vs {p2}",
                    lambda i: [float(V[p1][js[i]]), float(V[p2][js[i]])], lambda i: name[4:])
     if measure == "es" and only in (None, "homogeneity"):
@@ -191,7 +187,7 @@ def axioms(ctx, block):
                 viol = (vk - k * V[p]).abs() > slack
                 ctx.tick(M, nontrivial=int(nonconst.sum()))
                 js = viol.nonzero().flatten()
-                report("positive_homogeneity", p, [[int(j)] for j in js], None,
+                report("positive_homogeneity", p, len(js), lambda i: [int(js[i])], None,
                        lambda i: f"ES_{p}({k} x) != {k} ES_{p}(x) on x = {xd[:, js[i]].tolist()}",
                        lambda i: float(vk[js[i]]), lambda i: float(k * V[p][js[i]]))
     if measure in RISK and only in (None, "cash"):
@@ -206,7 +202,7 @@ def axioms(ctx, block):
                 viol = ~((vc - want).abs() <= slack)
                 ctx.tick(M, nontrivial=M)
                 js = viol.nonzero().flatten()
-                report("cash_invariance", p, [[int(j)] for j in js],
+                report("cash_invariance", p, len(js), lambda i: [int(js[i])],
                        [(x[:, js], V[p][js], T[p][js]), (xc[:, js], vc[js], slack[js])],
                        lambda i: f"{measure}(param={p}): rho(x + {c}) != rho(x) - {c} on x = {xd[:, js[i]].tolist()}",
                        lambda i: float(vc[js[i]]), lambda i: float(want[js[i]]))
@@ -233,7 +229,7 @@ def axioms(ctx, block):
             ks = viol.nonzero().flatten()
             if len(ks):
                 a, b = ii[ks], jj[ks]
-                report("monotone", p, [[int(a[n]), int(b[n])] for n in range(len(ks))],
+                report("monotone", p, len(ks), lambda n: [int(a[n]), int(b[n])],
                        [(x[:, a], vi[ks], ti[ks]), (x[:, b], vj[ks], tj[ks])],
                        lambda n: f"{measure}(param={p}): x <= y pointwise but rho(x) < rho(y); "
                                  f"x = {xd[:, a[n]].tolist()}, y = {xd[:, b[n]].tolist()}",
@@ -257,7 +253,7 @@ def axioms(ctx, block):
                 ks = viol.nonzero().flatten()
                 if len(ks):
                     aa, bb = a[ks], b[ks]
-                    report("convex", p, [[int(aa[n]), int(bb[n])] for n in range(len(ks))],
+                    report("convex", p, len(ks), lambda n: [int(aa[n]), int(bb[n])],
                            [(x[:, aa], va[ks], ta[ks]), (x[:, bb], vb[ks], tb[ks]), (mix[:, ks], vm[ks], tm[ks])],
                            lambda n: f"{measure}(param={p}): rho({t} x + {1 - t} y) > {t} rho(x) + {1 - t} rho(y); "
                                      f"x = {xd[:, aa[n]].tolist()}, y = {xd[:, bb[n]].tolist()}",
